@@ -461,3 +461,10 @@ def r6_all_deref(text):
     """V.iter().all(|f| *f)  ->  vt_all_true(&V)     (vstd's spec of Iterator::all is too weak to use)"""
     return re.subn(r'(self\.%s|%s)\.iter\(\)\.all\(\|(%s)\| \*(%s)\)' % ((IDENT,) * 4),
                    lambda m: 'vt_all_true(&%s)' % m.group(1) if m.group(2) == m.group(3) else m.group(0), text)
+
+
+@rule('R6_max_size')
+def r6_max_size(text):
+    """ITEMS.iter().map(|i| i.size()).max().unwrap_or(0)  ->  vt_max_size(ITEMS)"""
+    return re.subn(r'\b(%s)\.iter\(\)\.map\(\|(%s)\| (%s)\.size\(\)\)\.max\(\)\.unwrap_or\(0\)' % ((IDENT,) * 3),
+                   lambda m: 'vt_max_size(%s)' % m.group(1) if m.group(2) == m.group(3) else m.group(0), text)
